@@ -119,3 +119,18 @@ def recursive_int(fn):
 def forall_keys(d, pred):
     """pred(k) for every key k of the dict d (in proofs: a universally quantified key of the symbolic map)"""
     return all(pred(k) for k in list(d))
+
+
+def share_contracts(prop, modname, select):
+    """The contracts of another sidecar module that `select(qname)` accepts carry property `prop` as well: the
+    check of `prop` re-proves them on the current tree, so a change that breaks one of them is reported
+    under `prop` too (a property that rests on facts proved for another one).  Returns the names."""
+    import importlib
+    mod = importlib.import_module(modname)
+    names = []
+    for c in mod.M.contracts:
+        if select(c.qname) and not c.trusted:
+            c.props = tuple(sorted(set(c.props) | {prop}))
+            names.append(c.qname)
+    assert names, 'no contract of %s selected' % modname
+    return names
